@@ -136,7 +136,44 @@ def reachable(desc, roots):
     return out
 
 
+def after_color_layers_section(ctx):
+    """a glyph set in which a KEY differs from the glyph object's own name -- what the colour-layer pre-filter leaves behind
+    ('a.color1' holds the layer's glyph, still called 'a'): every filter run on it afterwards reports what it changed under the
+    names of the glyph set it was given, and changes every entry it was asked to"""
+    from ufo2ft.util import _GlyphSet
+    from ufo2ft.filters.explodeColorLayerGlyphs import ExplodeColorLayerGlyphsFilter
+    rng = ctx.subrng("after-colour-layers")
+    wanted = ["Transformations", "ReverseContourDirection", "CubicToQuadratic", "DecomposeComponents", "SortContours", "FlattenComponents"]
+    flist = [f for f in filters() if f[0] in wanted]
+    for i in range(ctx.budget(len(flist), 3 * len(flist))):
+        fname, cls, args, kwargs = flist[i % len(flist)]
+        lib = ["ufoLib2", "defcon"][(i // len(flist)) % 2]
+        desc, font = make_font(rng, lib, True, False)
+        case = {"filter": fname, "kwargs": jsonable(kwargs), "font": jsonable(desc), "lib": lib, "level": "after the colour-layer filter"}
+        try:
+            gset = _GlyphSet.from_layer(font, copy=True)
+            ExplodeColorLayerGlyphsFilter()(font, gset)
+            renamed = sorted(k for k in gset.keys() if gset[k].name != k)
+            before = snap.glyphset_snapshot(gset)
+            modified = set(cls(*args, **kwargs)(font, gset))
+            after = snap.glyphset_snapshot(gset)
+        except Exception as e:
+            ctx.spec_failure(case, "%s raised %s: %s\n%s" % (fname, type(e).__name__, e, traceback.format_exc()[-1000:]))
+            continue
+        ctx.count(); ctx.klass("after colour layers: %s (%d entries whose key is not the glyph's name)" % (fname, len(renamed)))
+        if renamed:
+            ctx.nontriv(("acl", i, ctx.scale))
+        changed = {n for n in set(before) | set(after) if before.get(n) != after.get(n)}
+        if not changed <= modified:
+            ctx.spec_failure(dict(case, entries_whose_key_is_not_the_name=renamed),
+                             "%s changed %r without reporting them (reported %r)" % (fname, sorted(changed - modified), sorted(modified)))
+        if not modified <= set(after) | set(before):
+            ctx.spec_failure(dict(case, entries_whose_key_is_not_the_name=renamed),
+                             "%s reported %r, which are not names of the glyph set" % (fname, sorted(modified - set(after) - set(before))))
+
+
 def explore(ctx):
+    after_color_layers_section(ctx)
     from ufo2ft.util import _GlyphSet
     rng = ctx.subrng("filters")
     flist = filters()
